@@ -82,9 +82,9 @@ where
 
     let maybe_table = make_table(
         old,
-        common_prefix_len..(old_range.len() - common_suffix_len),
+        (old_range.start + common_prefix_len)..(old_range.end - common_suffix_len),
         new,
-        common_prefix_len..(new_range.len() - common_suffix_len),
+        (new_range.start + common_prefix_len)..(new_range.end - common_suffix_len),
         deadline,
     );
     let mut old_idx = 0;
@@ -176,7 +176,7 @@ where
         }
 
         for j in (0..old_len).rev() {
-            let val = if new[i] == old[j] {
+            let val = if new[new_range.start + i] == old[old_range.start + j] {
                 table.get(&(i + 1, j + 1)).unwrap_or(&0) + 1
             } else {
                 *table
